@@ -9,7 +9,7 @@ use crate::{for_both, hx, Ctx};
 use blsful::*;
 use serde_json::json;
 
-pub const RULE: &str = "differential, byte level: (a) seeds of length 0..=64 and 1024 -> SecretKey::from_hash vs reference HKDF KeyGen written over HMAC-SHA-256; SecretKey::random with a known-stream RNG vs KeyGen(first 32 stream bytes); (b) keys (edge + random) -> public_key vs reference SkToPk; (c) keys x messages x 3 schemes -> sign vs reference Sign, incl. wire form = variant byte || compressed point; proof_of_possession vs PopProve; (d) aggregate / multi-signature accumulation vs reference point sum; (e) cross-verification both ways; (f) the 8 signature/PoP tag constants vs the draft's literal strings (finite, exhaustive). Distinct by (suite, op, input bytes); non-trivial = both sides produced an output that was compared byte for byte.";
+pub const RULE: &str = "differential, byte level: (a) seeds of length 0..=64 and 1024 -> SecretKey::from_hash vs reference HKDF KeyGen written over HMAC-SHA-256; SecretKey::random with a known-stream RNG vs KeyGen(first 32 stream bytes); (b) keys (edge + random) -> public_key vs reference SkToPk; (c) keys x messages (length classes; and messages equal to / starting with / one byte short of the signer's own public key) x 3 schemes -> sign vs reference Sign, incl. wire form = variant byte || compressed point; proof_of_possession vs PopProve; (d) aggregate / multi-signature accumulation vs reference point sum; (e) cross-verification both ways; (f) the 8 signature/PoP tag constants vs the draft's literal strings (finite, exhaustive). Distinct by (suite, op, input bytes); non-trivial = both sides produced an output that was compared byte for byte.";
 
 pub fn run(ctx: &mut Ctx) {
     for_both!(run_suite, ctx);
@@ -151,14 +151,25 @@ fn run_suite<C: Suite>(ctx: &mut Ctx) {
                 ctx.hit(&format!("{n}/pop"), &[&sk_rs.to_be_bytes()]);
             }
         }
+        // message shapes: the length classes with random content, plus messages that START WITH
+        // (or are) the signer's own compressed public key - the augmentation scheme must still
+        // prepend the key to those
+        let own_pk = pk_bytes(&sk.public_key());
+        let mut shapes: Vec<(usize, u8)> = lens.iter().map(|l| (*l, 0u8)).collect();
+        shapes.extend([(0usize, 1u8), (7, 2), (0, 3)]);
         for scheme in SCHEMES {
-            for &len in lens {
+            for &(len, shape) in &shapes {
                 g += 1;
                 if !ctx.mine(g) {
                     continue;
                 }
                 let mut rng = ctx.rng(g);
-                let msg = gen::message(len, Content::Random, &mut rng);
+                let msg = match shape {
+                    0 => gen::message(len, Content::Random, &mut rng),
+                    1 => own_pk.clone(),
+                    2 => [own_pk.clone(), gen::random_bytes(len, &mut rng)].concat(),
+                    _ => own_pk[..own_pk.len() - 1].to_vec(),
+                };
                 let Some(Ok(sig)) = ctx.guard("SecretKey::sign", || json!({"msg":hx(&msg)}), || sk.sign(lscheme(scheme), &msg)) else {
                     ctx.violation(&format!("C03/sign-failed/{n}/{}", scheme.name()), json!({"sk":hex::encode(sk_rs.to_be_bytes())}));
                     continue;
